@@ -391,6 +391,49 @@ pub fn run(ctx: &mut Ctx) {
             }
         }
     }
+    // literal containers in every operand position of every operator: an array written in the rule that holds
+    // operation-shaped members, and a multi-key object one of whose keys is an operator name, are plain values
+    // wherever they stand - the members are chosen so that EVALUATING them would yield exactly the benign operand
+    for name in OPS {
+        for n in 1..=3usize {
+            if !refmodel::arity_ok(name, n) || !ctx.mine() {
+                continue;
+            }
+            let base = crate::spaces::c03::benign(name, n);
+            let mut dm = serde_json::Map::new();
+            for (i, b) in base.iter().enumerate() {
+                dm.insert(format!("b{}", i), b.clone());
+            }
+            dm.insert("xs".into(), json!([1, 2, 3]));
+            let d = Value::Object(dm);
+            for p in 0..n {
+                for q in 0..n {
+                    let lits = [
+                        json!([{"var": format!("b{}", q)}]),
+                        json!([{"var": format!("b{}", q)}, "x"]),
+                        json!([0, {"var": format!("b{}", q)}]),
+                        json!({"var": format!("b{}", q), "note": "annotated"}),
+                        json!({"var": "xs", "note": "all of them"}),
+                        json!({"and": [true], "var": "xs"}),
+                        json!([{"log": "LEAK"}]),
+                    ];
+                    for l in lits {
+                        ctx.edge();
+                        let mut args = base.clone();
+                        args[p] = l;
+                        ctx.check("literal-container:operand", &op(name, args.clone()), &d);
+                        // the same with the other operands read from the data
+                        for (i, a) in args.iter_mut().enumerate() {
+                            if i != p {
+                                *a = json!({"var": format!("b{}", i)});
+                            }
+                        }
+                        ctx.check("literal-container:operand:V", &op(name, args), &d);
+                    }
+                }
+            }
+        }
+    }
     // dispatch side at large operand counts (8- and 16-bit count boundaries included): the operator is
     // still found and still sees every operand
     {
